@@ -476,6 +476,13 @@ func (m *Machine) doSlice(t *Thread, f *Frame, i *ssa.Slice) {
 	x := m.get(f, i.X)
 	switch a := x.(type) {
 	case Str:
+		if v, handled := m.symStrSlice(t, f, i, a); handled {
+			if v != nil {
+				f.Regs[i] = v
+				f.PC++
+			}
+			return
+		}
 		lo, hi, _, ok := m.sliceBounds(t, f, i, len(a.B), len(a.B), true)
 		if !ok {
 			return
@@ -568,4 +575,36 @@ func (m *Machine) doTypeAssert(t *Thread, f *Frame, i *ssa.TypeAssert) {
 	}
 	f.Regs[i] = v
 	f.PC++
+}
+
+// symStrSlice handles s[lo:hi] with symbolic lo but constant width hi-lo without forking: each result byte is an
+// ite-tree over the source. handled=false means the generic path applies; a nil value with handled=true means a panic
+// was started.
+func (m *Machine) symStrSlice(t *Thread, f *Frame, i *ssa.Slice, a Str) (Value, bool) {
+	if i.Low == nil || i.High == nil || len(a.B) == 0 || len(a.B) > 512 {
+		return nil, false
+	}
+	lo := m.idx64(m.get(f, i.Low), i.Low.Type())
+	hi := m.idx64(m.get(f, i.High), i.High.Type())
+	if lo.IsConst() {
+		return nil, false
+	}
+	width := smt.Sub(hi, lo)
+	if !width.IsConst() || width.U > 64 {
+		return nil, false
+	}
+	n := len(a.B)
+	okc := smt.And(smt.Ule(lo, hi), smt.Ule(hi, smt.BV(64, uint64(n))))
+	if !okc.IsTrue() {
+		m.Res.PanicChecks++
+		if !m.branch(okc, "slicebounds@"+m.pos(i)) {
+			m.goPanic(t, fmt.Sprintf("runtime error: slice bounds out of range [symbolic] with length %d", n), i)
+			return nil, true
+		}
+	}
+	out := make([]*smt.Term, width.U)
+	for k := range out {
+		out[k] = selectTree(a.B, 0, smt.Add(lo, smt.BV(64, uint64(k))))
+	}
+	return Str{out}, true
 }
